@@ -253,6 +253,8 @@ fn typed_table() -> Vec<(&'static str, fn(&mut Ctx, &[u8]))> {
         rt!("BTreeMap<Name,Wide>", BTreeMap<Name, Wide>),
         rt!("BTreeMap<Wide,Id>", BTreeMap<Wide, Id>),
         rt!("(String,u128)", (String, u128)),
+        rt!("Version", Version),
+        rt!("TailEnum", TailEnum),
         rt!("Vec<(String,i128)>", Vec<(String, i128)>),
     ]
 }
@@ -787,6 +789,10 @@ impl Check for C19 {
         for _ in 0..n {
             emit(Case::with("built", vec![], &[r.next() as i64]));
         }
+        let n = g.count(4_000, 300_000);
+        for _ in 0..n {
+            emit(Case::with("laws-wide", vec![], &[r.next() as i64]));
+        }
         if g.shard == 0 {
             // explicit duplicate-key probes (finding F8)
             emit(Case::with("dup-probe", vec![], &[0]));
@@ -847,6 +853,43 @@ impl Check for C19 {
                 }
                 ctx.sample("reflexive-dup");
             }
+            "laws-wide" => {
+                // objects of 30..80 members (parsed, cloned, rebuilt): equal iff same keys and values
+                let mut rr = Rng::new(c.p(0) as u64);
+                let n = rr.range(30, 80);
+                let keys: Vec<String> = (0..n).map(|i| format!("k{}_{}", i, rr.below(1000))).collect();
+                let vals: Vec<u32> = (0..n).map(|_| rr.below(5) as u32).collect();
+                let text = |ks: &[String], vs: &[u32], rev: bool| -> String {
+                    let mut items: Vec<String> = ks.iter().zip(vs).map(|(k, v)| format!("\"{}\":{}", k, v)).collect();
+                    if rev {
+                        items.reverse();
+                    }
+                    format!("{{{}}}", items.join(","))
+                };
+                let a: Value = sonic_rs::from_str(&text(&keys, &vals, false)).unwrap();
+                let same: Value = sonic_rs::from_str(&text(&keys, &vals, true)).unwrap();
+                let i = rr.below(n as u64) as usize;
+                let mut k2 = keys.clone();
+                k2[i] = format!("{}x", k2[i]);
+                let renamed: Value = sonic_rs::from_str(&text(&k2, &vals, rr.chance(1, 2))).unwrap();
+                let mut v2 = vals.clone();
+                v2[i] += 1;
+                let changed: Value = sonic_rs::from_str(&text(&keys, &v2, rr.chance(1, 2))).unwrap();
+                let mut renamed_owned = a.clone();
+                if let Some(o) = renamed_owned.as_object_mut() {
+                    let old = o.remove(&keys[i].as_str());
+                    o.insert(&k2[i], old.unwrap_or_default());
+                }
+                ctx.ops(1);
+                ctx.nontrivial();
+                ctx.class("laws:wide-objects");
+                let eqs = [a == same, same == a, a == a.clone(), rebuild(&a) == a, a == rebuild(&same)];
+                let nes = [a == renamed, renamed == a, a == changed, changed == a, a == renamed_owned, renamed_owned == a, rebuild(&a) == renamed, sonic_rs::json!([a.clone()]) == sonic_rs::json!([renamed.clone()])];
+                if eqs.iter().any(|x| !*x) || nes.iter().any(|x| *x) {
+                    ctx.fail("eq-wide-objects", format!("{} members, member #{} renamed / changed: equal-forms {:?} (all should be true), unequal-forms {:?} (all should be false)", n, i, eqs, nes));
+                }
+                ctx.sample("laws-wide");
+            }
             "built" => {
                 ctx.nontrivial();
                 check_built(ctx, c.p(0) as u64);
@@ -875,6 +918,6 @@ impl Check for C19 {
         if b != "native-rel" {
             return vec!["dyn:both-routes-ok", "typed:instance", "laws:pair"];
         }
-        vec!["dyn:both-routes-ok", "table:non-finite", "table:wide-128", "table:non-string-key", "typed:instance", "laws:pair", "laws:equal-pair", "laws:duplicate-key-probe", "laws:reflexive-with-duplicates", "built:integer", "built:float", "built:string", "built:array", "built:object", "type:Payloads", "type:Wrappers", "type:Adjacent"]
+        vec!["dyn:both-routes-ok", "table:non-finite", "table:wide-128", "table:non-string-key", "typed:instance", "laws:pair", "laws:equal-pair", "laws:duplicate-key-probe", "laws:reflexive-with-duplicates", "laws:wide-objects", "built:integer", "built:float", "built:string", "built:array", "built:object", "type:Payloads", "type:Wrappers", "type:Adjacent"]
     }
 }
